@@ -41,6 +41,9 @@ pub(crate) fn run() -> Result<(), Error> {
     }
     let cwd = env::current_dir()?;
     let want = redo::abs_path(&cwd, Path::new(&want));
+    // Resolve symbolic links in the directory part, like the builder does
+    // when it looks up the target: `link/../x` is not `./x`.
+    let want = cwd.join(redo::relpath(&want, &cwd)?);
     for df in redo::possible_do_files(want) {
         let do_path = df.do_dir().join(df.do_file());
         let relpath = redo::relpath(&do_path, &cwd)?;
